@@ -202,7 +202,9 @@ func (c08) Exec(x *Exec, ci interface{}) *Verdict {
 			vd.V = Mismatch("eof-marker", "wc=%d: Close error = %v but stream ends with the EOF marker = %v", wc, werrMsg(werr), endsWithMarker)
 			return vd
 		}
-		if hasEOFErr != nil && len(img) >= len(SpecEOF) {
+		if hasEOFErr != nil {
+			// also for a stream shorter than the marker (what a writer that
+			// failed early leaves behind): the answer is "no", not an error
 			vd.V = Mismatch("haseof-error", "wc=%d: HasEOF = %v on a %d byte stream", wc, hasEOFErr, len(img))
 			return vd
 		}
